@@ -1,4 +1,4 @@
-import NasdaqModel.Lemmas.AppSessionLemmasK4
+import NasdaqModel.Lemmas.AppSessionLemmasO
 import NasdaqModel.Lemmas.AppMonitorLemmas
 import NasdaqModel.Props.C05
 /-
@@ -221,6 +221,29 @@ theorem C05App_released_caller_returns (a : ACfg) (s : St) (u : Nat)
     (step a s (.run (.W u))).tr = s.tr ++ [.app (.closeRet (.user u) .ok)] ∧
     alive2 ((step a s (.run (.W u))).astatus (.W u)) = false := by
   simp [step, runnable2, hW, stepRun2, hp, St.finish2, St.emit2, alive2]
+
+/-- **Close calls never raise (partial).** If no application message callback awaits `close()` in its body, then — for the code
+    as it is (`closedFirst`) — every `await app.close()` that has ended, whoever made it (a user task, a message callback in its
+    cancellation clean-up, the close callback), returned normally, except that a *user task the user cancelled* while it was
+    waiting reports that cancellation.
+    Full statement (without the hypothesis on the message callbacks): false of the code — the known finding
+    C05-app-close-from-message-callback, `Witness.C05App.C05App_witness_close_from_handler_cancelled`. -/
+theorem C05App_close_never_raises_partial (a : ACfg) (evs : List Ev) (hcf : a.closedFirst = true)
+    (hnc : ∀ v, a.msgBeh v ≠ .close ∧ ∀ k, a.msgBeh v ≠ .awaitClose k) (c : Caller) (r : Sess.Res)
+    (h : AObs.closeRet c r ∈ (reach a evs).trace2) :
+    r = .ok ∨ (∃ u, c = .user u ∧ r = .cancelled) := by
+  have key := runEvs_InvO (a := a)
+    (P := fun o => ∀ c r, o = AObs.closeRet c r → r = .ok ∨ (∃ u, c = .user u ∧ r = .cancelled)) ?_ ?_ ?_ evs
+  · exact key _ h c r rfl
+  · -- the plain observables: a `closeRet` among them is `ok`, or a user's own cancellation
+    intro o ho c r e
+    subst e
+    cases r <;> cases c <;> simp_all [plainObs]
+  · intro v hv
+    rcases hv with hv | ⟨k, hv⟩
+    · exact absurd hv (hnc v).1
+    · exact absurd hv ((hnc v).2 k)
+  · intro h; rw [hcf] at h; contradiction
 
 /-- **No handler is left inside `close()` (partial).** If no application message callback awaits `close()` in its body (at once or
     after some work), then in no
